@@ -64,14 +64,14 @@ def overlay_file(scratch, scripted=False):
     return p
 
 
-def native_replay(scratch, pkg, record_path, timeout=180, scripted=False):
+def native_replay(scratch, pkg, record_path, timeout=180, scripted=False, race=False):
     """run the harness natively on a record. returns (failed, output)"""
     ov = overlay_file(scratch, scripted)
     env = dict(GOENV, VERIF_REPLAY=record_path)
-    r = sh(['go', 'test', '-vet=off', '-count=1', '-overlay', ov, '-run', '^TestVerifReplay$', '-timeout', '%ds' % timeout, '-v', '.'],
+    r = sh(['go', 'test', '-vet=off', '-count=1'] + (['-race'] if race else []) + ['-overlay', ov, '-run', '^TestVerifReplay$', '-timeout', '%ds' % timeout, '-v', '.'],
            cwd=os.path.join(REPO, DIRMAP[pkg]), env=env)
     out = r.stdout
-    failed = ('VERIF-FAIL' in out) or ('VERIF-PANIC' in out) or ('panic: test timed out' in out) or ('--- FAIL' in out)
+    failed = ('DATA RACE' in out) or ('VERIF-FAIL' in out) or ('VERIF-PANIC' in out) or ('panic: test timed out' in out) or ('--- FAIL' in out)
     if r.returncode != 0 and not failed and 'VERIF-ASSUME-FAILED' not in out:
         # build failure or similar: not a reproduction
         return None, out
@@ -118,7 +118,7 @@ def main():
     if args.replay:
         rec = json.load(open(args.replay))
         pkg = rec.get('pkg') or P.get('pkg_of', {}).get(rec['harness'], 'root')
-        failed, out = native_replay(scratch, pkg, os.path.abspath(args.replay), scripted=bool(rec.get('scripted')))
+        failed, out = native_replay(scratch, pkg, os.path.abspath(args.replay), scripted=bool(rec.get('scripted')), race=bool(rec.get('race')))
         print(out[-3000:])
         if failed:
             print('VIOLATION property=%s replay=%s' % (args.prop, args.replay))
@@ -212,6 +212,7 @@ def main():
                 os.makedirs(replay_dir, exist_ok=True)
                 rec = x['record']
                 rec['pkg'] = job['pkg']
+                rec['race'] = bool(job['opts'].get('race'))
                 rec['scripted'] = any(x_ in ('workflow', 'fast') for x_ in job['opts'].get('stubs', []))
                 rec['obligation'] = {'kind': x['kind'], 'label': x['label'], 'pos': x['pos']}
                 name = hashlib.sha1(json.dumps(rec, sort_keys=True).encode()).hexdigest()[:12]
@@ -221,7 +222,7 @@ def main():
                 if len(violations) >= args.max_violations:
                     os.remove(path)
                     continue
-                failed, out = native_replay(scratch, job['pkg'], path, scripted=rec['scripted'])
+                failed, out = native_replay(scratch, job['pkg'], path, scripted=rec['scripted'], race=rec['race'])
                 if failed:
                     desc = '%s %s %s %s' % (job['harness'], x['kind'], x['label'], x['pos'])
                     k = next((k for k in known if k['match'] and k['match'] in desc), None)
